@@ -27,9 +27,9 @@ def plan(tier, seed):
     for w in (8, 16, 24):
         sh.append({"kind": "filters", "width": w, "n": 1500 if tier == "quick" else 6000})
     sh.append({"kind": "schemes"})
-    nd = 8 if tier == "quick" else 32
+    nd = 8 if tier == "quick" else 64
     for p in range(nd):
-        sh.append({"kind": "discovery", "part": p, "n": (640 if tier == "quick" else 3200) // nd})
+        sh.append({"kind": "discovery", "part": p, "n": (640 if tier == "quick" else 12800) // nd})
     return sh
 
 
